@@ -48,7 +48,10 @@ ASSUMPTIONS = [
     'queries exactly at the centre of an arc are excluded (every point of a circle is closest)',
     'Polygon2D.distance_to_point: queries whose (1, 1e-5) test ray passes within 1e-9 of a '
     'polygon vertex are excluded (documented fringe case of is_point_inside, property C08)',
-    'pole_of_inaccessibility: polygons with area >= 20 x (largest dimension x tolerance)',
+    'pole_of_inaccessibility: the general stream uses polygons with area >= 20 x (largest '
+    'dimension x tolerance); polygons below (largest dimension x tolerance) that still have a '
+    'deep interior form a separate stream (variant area<max_dim*tol) - the implementation '
+    'returns the bounding-box centre there, a listed known finding',
     'tolerance 1e-9 relative to the coordinate magnitude of the case',
 ]
 TRUSTED = [
@@ -821,9 +824,9 @@ def pole_oracle(pts, pole2, tolerance):
     return None
 
 
-def check_pole(pts, kind, use_face, rng, fails_to):
+def check_pole(pts, kind, use_face, rng, fails_to, variant=''):
     site = 'Face3D.pole_of_inaccessibility' if use_face else 'Polygon2D.pole_of_inaccessibility'
-    cs = Case(site, '', hx.mag_of(pts))
+    cs = Case(site, variant, hx.mag_of(pts))
     if use_face:
         pl, pk = hx.rand_plane(rng, rng.choice([1.0, 100.0]))
         f = hx.guarded(lambda: Face3D(hx.to3d(pl, pts)))
@@ -979,7 +982,40 @@ def stream_polygons(rng, hist, fails_to):
     return n, 'Polygon2D %s' % kind
 
 
+def gen_thin_feature_polygon(rng):
+    """Valid simple polygons with a deep interior whose area is nevertheless below
+    (largest dimension x tolerance): a block with a long thin whisker, or a thin L with a block
+    at the corner.  (The implementation returns the bounding-box centre for these.)"""
+    a = rng.uniform(1.0, 3.0)                 # block a x a: inradius a/2 >> POLE_TOL
+    t = rng.uniform(0.001, 0.004)             # whisker thickness
+    ln = rng.uniform(200.0, 400.0) * a * a    # whisker length: area ~ a^2 + ln*t < ln*POLE_TOL
+    if rng.random() < 0.5:
+        y0 = rng.uniform(0.1, 0.8) * a
+        pts = [(0, 0), (a, 0), (a, y0), (a + ln, y0), (a + ln, y0 + t), (a, y0 + t), (a, a), (0, a)]
+        kind = 'block+whisker'
+    else:
+        pts = [(0, 0), (a + ln, 0), (a + ln, t), (a, t), (a, a), (t, a), (t, a + ln), (0, a + ln)]
+        kind = 'block+two-whiskers'
+    ang = rng.choice([0.0, rng.uniform(0, TWO_PI)])
+    pts = [(x, y) for x, y in hx.rot_loop(pts, ang)]
+    # (hx.valid_loop rejects thin shapes on purpose; here thinness is the point)
+    if hx.min_edge(pts) < 1e-3 or not hx.is_simple_loop([hx.fx(q) for q in pts]):
+        return None, kind
+    return pts, kind
+
+
 def stream_poles(rng, hist, fails_to):
+    if rng.random() < 0.12:
+        pts, kind = gen_thin_feature_polygon(rng)
+        if pts is None:
+            return 0, ''
+        xs, ys = [p[0] for p in pts], [p[1] for p in pts]
+        area = abs(float(hx.shoelace2([hx.fx(p) for p in pts]))) / 2
+        if area >= max(max(xs) - min(xs), max(ys) - min(ys)) * POLE_TOL:
+            return 0, ''
+        check_pole(pts, kind, False, rng, fails_to, variant='area<max_dim*tol')
+        hx.hist_add(hist['pole'], 'Polygon2D/' + kind)
+        return 1, 'pole %s' % kind
     pts, kind = gen_pole_polygon(rng)
     if pts is None:
         return 0, ''
